@@ -227,6 +227,24 @@ impl Mempool {
             public_key = wallet.public_key;
             private_key = wallet.private_key;
         }
+        // tickets are pooled without a look at their solution: a ticket that does not solve
+        // the current tip would make every block built with it invalid, on every tick. such a
+        // ticket is dropped from the pool here and the block is built without one.
+        let gt_tx = match gt_tx {
+            Some(tx) if !Self::golden_ticket_solves_tip(&tx, blockchain) => {
+                warn!(
+                    "golden ticket in tx : {:?} does not solve the current tip. removing it",
+                    tx.signature.to_hex()
+                );
+                self.golden_tickets.remove(&previous_block_hash);
+                if tx.data.len() == 97 {
+                    let gt = GoldenTicket::deserialize_from_net(&tx.data);
+                    self.golden_tickets.remove(&gt.target);
+                }
+                None
+            }
+            other => other,
+        };
         let mempool_work = self
             .can_bundle_block(blockchain, current_timestamp, &gt_tx, configs, &public_key)
             .await?;
@@ -301,6 +319,20 @@ impl Mempool {
         }
 
         Some(block)
+    }
+
+    /// the check Block::validate applies to the golden ticket of a child of the tip
+    fn golden_ticket_solves_tip(gt_tx: &Transaction, blockchain: &Blockchain) -> bool {
+        if gt_tx.data.len() != 97 {
+            return false;
+        }
+        match blockchain.get_latest_block() {
+            Some(tip) => {
+                let gt = GoldenTicket::deserialize_from_net(&gt_tx.data);
+                GoldenTicket::create(tip.hash, gt.random, gt.public_key).validate(tip.difficulty)
+            }
+            None => true,
+        }
     }
 
     pub async fn bundle_genesis_block(
